@@ -162,6 +162,31 @@ class ConsTrans:
         return out
 
 
+class Reentrant:
+    """A user callback (preference / objective / constraint transformation) that, before returning exactly what ``plain`` returns,
+    calls back into the protocol it is installed in (``action``: a solve or select for another population, building another
+    problem, evaluating another candidate).  Re-entry happens on the first ``budget`` outermost invocations only; invocations made
+    while a re-entry is running are plain, so the recursion is bounded."""
+
+    def __init__(self, plain, budget=1):
+        self.plain, self.budget, self.action = plain, int(budget), None
+        self.busy = False
+        self.reentries = 0
+        self.errors = []
+
+    def __call__(self, *a, **k):
+        if self.action is not None and not self.busy and self.reentries < self.budget:
+            self.busy = True
+            self.reentries += 1
+            try:
+                self.action()
+            except Exception as e:      # the nested call is somebody else's business; the outer result must not depend on it
+                self.errors.append("%s: %s" % (type(e).__name__, str(e)[:120]))
+            finally:
+                self.busy = False
+        return self.plain(*a, **k)
+
+
 def nd_sum(mat, **kw):
     return numpy.asarray(mat, dtype=float).sum(1)
 
@@ -205,17 +230,23 @@ def plugin(enc, chooser):
                 self.chooser = chooser
                 self.prob = None
                 self.calls = 0
-                self.info = {}
+                self.info = {}          # notes of the FIRST call (the outer one when a callback re-enters the protocol)
+                self.history = []       # one (X, F, prob) entry per call, in order of entry
 
             def minimize(self, prob, miscout=None, **kw):
-                self.prob = prob
+                idx = len(self.history)
+                self.history.append(None)
+                if idx == 0:
+                    self.prob = prob
                 self.calls += 1
-                X = numpy.asarray(self.chooser(prob, self.info))
+                X = numpy.asarray(self.chooser(prob, self.info if idx == 0 else {}))
                 ev = [prob.evalfn(x) for x in X]
                 F = numpy.stack([numpy.asarray(e[0], dtype=float) for e in ev])
                 G = numpy.stack([numpy.asarray(e[1], dtype=float) for e in ev])
                 H = numpy.stack([numpy.asarray(e[2], dtype=float) for e in ev])
-                self.X, self.F = X, F
+                self.history[idx] = (X, F, prob)
+                if idx == 0:
+                    self.X, self.F = X, F
                 return solcls(ndecn=prob.ndecn, decn_space=prob.decn_space, decn_space_lower=prob.decn_space_lower,
                               decn_space_upper=prob.decn_space_upper, nobj=prob.nobj, obj_wt=prob.obj_wt, nineqcv=prob.nineqcv,
                               ineqcv_wt=prob.ineqcv_wt, neqcv=prob.neqcv, eqcv_wt=prob.eqcv_wt, nsoln=len(X), soln_decn=X,
